@@ -1,6 +1,7 @@
 #!/usr/bin/env python3
 """Run every check against every seeded mutant (scratch copy of /repo + patch) and record the outcome in
-seeded/<id>/meta.json["checks"].  Usage: tools/seed_matrix.py [--only-target] [ids...]"""
+seeded/<id>/meta.json["checks"].  Usage: tools/seed_matrix.py [--only-target] [--as-of <old checkout of /verif>] [ids...]
+(env VERIF_CHECK_HOME=<frozen checkout> runs that checkout's ./check, so that /verif can be edited meanwhile)"""
 import json, os, subprocess, sys, tempfile, shutil, time
 from concurrent.futures import ThreadPoolExecutor
 V = "/verif"
@@ -44,7 +45,7 @@ def run(sid):
             env = dict(os.environ, VERIF_REPO=d + "/repo", VERIF_REPLAY_DIR=d + "/replays", VERIF_EVIDENCE_DIR=d + "/evidence",
                        VERIF_WORKERS="5", VERIF_BUDGET_S="60")
             t0 = time.time()
-            cp = subprocess.run([(AS_OF or V) + "/check", prop, "quick"], capture_output=True, text=True, env=env, timeout=3600)
+            cp = subprocess.run([(AS_OF or os.environ.get("VERIF_CHECK_HOME") or V) + "/check", prop, "quick"], capture_output=True, text=True, env=env, timeout=3600)
             lines = cp.stdout.splitlines()
             vio = [l.strip() for l in lines if l.startswith("  clause=")]
             meta.setdefault("first_contact", {})
